@@ -179,6 +179,18 @@ class Term:
         f = self.func
         return f.get("resolved") or f.get("def")
 
+    def none_some_targets(self):
+        """(target of the None/0 outcome, target of the Some/1 outcome) of a switch on an Option discriminant, in either spelling:
+        `[0: n, 1: s, otherwise: unreachable]` (match / for) or `[1: s, otherwise: n]` (if let / while let)"""
+        if self.k != "switch":
+            return None, None
+        arms = {int(v): tg for v, tg in self.j["arms"]}
+        if 0 in arms:
+            return arms[0], arms.get(1)
+        if set(arms) == {1}:
+            return self.j["otherwise"], arms[1]
+        return None, None
+
     def callee_decl(self):
         return self.func.get("def") if self.k == "call" else None
 
